@@ -17,12 +17,16 @@ package jwt
 
 import (
 	"encoding/json"
+	"fmt"
 )
 
 func loadAuthorizationRequest(data []byte, version int) (*AuthorizationRequestClaims, error) {
 	var ac AuthorizationRequestClaims
 	if err := json.Unmarshal(data, &ac); err != nil {
 		return nil, err
+	}
+	if ac.Type != "" && ac.Type != AuthorizationRequestClaim {
+		return nil, fmt.Errorf("claim declares conflicting types %q and %q", AuthorizationRequestClaim, ac.Type)
 	}
 	return &ac, nil
 }
@@ -31,6 +35,9 @@ func loadAuthorizationResponse(data []byte, version int) (*AuthorizationResponse
 	var ac AuthorizationResponseClaims
 	if err := json.Unmarshal(data, &ac); err != nil {
 		return nil, err
+	}
+	if ac.Type != "" && ac.Type != AuthorizationResponseClaim {
+		return nil, fmt.Errorf("claim declares conflicting types %q and %q", AuthorizationResponseClaim, ac.Type)
 	}
 	return &ac, nil
 }
